@@ -46,6 +46,14 @@ def gen_case(rng, n_ops, faults=False, crashes=False):
         for s, u, lvl, bg in sess:
             if rng.chance(1, 2):
                 out.append(f"sub {s} me")
+        if rng.chance(1, 5):
+            # a session of an account which is gone: its {sub me} finds no account, the server logs the session out; whatever it
+            # sends afterwards - also on behalf of others, if it was a root session - is refused
+            lvl8 = rng.choice(["auth", "root"])
+            out.append("user U5 JRWPAS N state=missing")
+            out.append(f"sess S8 U5 {lvl8}")
+            out.append("sub S8 me")
+            sess = sess + [("S8", "U5", lvl8, "")]
     ntop = 0
     contents = 0
     chans = set()       # channel-enabled group topics: U2 and U3 come to them as channel readers (`chn:` spelling), U1 and U4 as subscribers
